@@ -310,6 +310,7 @@ def fresh_candidates(rng: random.Random, original: str, identifiers: list[str]) 
 		rng.choice(['x', 'do', 'my', 'a_', 'pre__']) + stem,                             # reserved word as suffix
 		rng.choice(['self', 'cls', 'super']) + rng.choice(['o', 'x', '_', '__', '2', 'ish', '_x', 'X']),   # this/class reference word as prefix
 		rng.choice(['x', 'do', 'my', 'a_', 'pre', 'post__']) + rng.choice(['__init__', '__init__', '__new__', '__eq__', '__name__']),  # dunder as suffix
+		rng.choice(['next_', 'to', 'make_', 'x']) + rng.choice([i for i in identifiers if i[:1].isupper()] or ['Item']),   # a (class) name as suffix
 		rng.choice(letters),                                                          # single letter
 		''.join(rng.choice(letters + '_') for _ in range(rng.randint(50, 90))) + 'z',  # long
 		core + core,                                                                  # the name doubled
@@ -436,6 +437,7 @@ class NestGen:
 		self.enums: list[tuple[str, list[str]]] = []
 		self.funcs: list[FuncSig] = []
 		self.module_vars: list[tuple[str, str]] = []
+		self.applier: str | None = None
 		self.hist: dict[str, int] = {}
 
 	def count(self, k: str) -> None:
@@ -539,6 +541,59 @@ class NestGen:
 		out: list[str] = []
 		env = list(env)
 		declared_here: set[str] = set()
+		def ensure(ty: str) -> None:
+			# at least two variables of this type in scope, so that a lambda / closure can capture several
+			while len([n for n, t in env if t == ty and n != 'self']) < 2:
+				name = self.names.var(scope_names)
+				local_pool.append(name)
+				out.append(f'{pad}{name}: {ty} = {self.lit(ty)}')
+				env.append((name, ty))
+				declared_here.add(name)
+
+		def gen_lambda() -> None:
+			ensure('int')
+			ints = [n for n, t in env if t == 'int' and n != 'self']
+			if len(ints) >= 2:
+				caps = r.sample(ints, r.randint(2, min(3, len(ints))))
+				q = self.names.var(scope_names)
+				user = self.names.var(scope_names)
+				local_pool.append(user)
+				out.append(f"{pad}{user} = {self.applier}(lambda {q}: {' + '.join([q, *caps])}, {self.expr('int', env, 1, me)})")
+				env.append((user, 'int'))
+				declared_here.add(user)
+				self.count('stmt:lambda-multi-capture')
+
+		def gen_closure() -> None:
+			cname = self.names.var(scope_names)
+			cty = r.choice(['int', 'str'])
+			if r.random() < 0.7:
+				ensure(cty)
+			shadowable = [n for n, t in env if t == cty and n != 'self']
+			if shadowable and r.random() < 0.35:
+				p = r.choice(shadowable)   # the closure's parameter shadows a variable of the enclosing function
+				self.count('closure:param-shadows-outer')
+			else:
+				p = self.names.var(scope_names)
+			out.append(f'{pad}def {cname}({p}: {cty}) -> {cty}:')
+			inner_env = [*[(n, t) for n, t in env if n != p], (p, cty)]
+			if r.random() < 0.5:
+				lv = self.names.var(scope_names)
+				out.append(f'{pad}\t{lv} = {self.expr(cty, inner_env, 0, me)}')
+				inner_env.append((lv, cty))
+			outer = [n for n, t in env if t == cty and n != p and n != 'self']
+			if len(outer) >= 2:
+				caps = r.sample(outer, r.randint(2, min(3, len(outer))))   # capture list: several outer variables, first-reference order
+				out.append(f"{pad}\treturn {' + '.join([p, *caps])}")
+				self.count('closure:multi-capture')
+			else:
+				out.append(f'{pad}\treturn {self.expr(cty, inner_env, 0, me)}')
+			user = self.names.var(scope_names)
+			local_pool.append(user)
+			out.append(f'{pad}{user} = {cname}({self.expr(cty, env, 1, me)})')
+			env.append((user, cty))
+			declared_here.add(user)
+			self.count('stmt:closure')
+
 		for _ in range(r.randint(1, 2 + self.size)):
 			k = r.random()
 			if k < 0.3:
@@ -608,28 +663,22 @@ class NestGen:
 					n, c, m = r.choice(objs)
 					out.append(f"{pad}{n}.{m.name}({', '.join(self.expr(t, env, 1, me) for _, t in m.params)})")
 					self.count('stmt:method-call')
+			elif k < 0.93 and self.applier is not None:
+				gen_lambda()
+			elif k < 0.96 and depth >= 1 and self.module_vars:
+				# a local initialised from a bare module-level name inside a flow block (its type is whatever the name resolves to)
+				mv, mt = r.choice(self.module_vars)
+				if all(mv != e for e, _ in env):
+					name = self.names.var(scope_names)
+					local_pool.append(name)
+					out.append(f'{pad}{name} = {mv}')
+					env.append((name, mt))
+					declared_here.add(name)
+					self.count('stmt:local-from-module-var-in-flow')
 			elif allow_closure and depth == 0:
-				cname = self.names.var(scope_names)
-				cty = r.choice(['int', 'str'])
-				shadowable = [n for n, t in env if t == cty and n != 'self']
-				if shadowable and r.random() < 0.35:
-					p = r.choice(shadowable)   # the closure's parameter shadows a variable of the enclosing function
-					self.count('closure:param-shadows-outer')
-				else:
-					p = self.names.var(scope_names)
-				out.append(f'{pad}def {cname}({p}: {cty}) -> {cty}:')
-				inner_env = [*[(n, t) for n, t in env if n != p], (p, cty)]
-				if r.random() < 0.5:
-					lv = self.names.var(scope_names)
-					out.append(f'{pad}\t{lv} = {self.expr(cty, inner_env, 0, me)}')
-					inner_env.append((lv, cty))
-				out.append(f'{pad}\treturn {self.expr(cty, inner_env, 0, me)}')
-				user = self.names.var(scope_names)
-				local_pool.append(user)
-				out.append(f'{pad}{user} = {cname}({self.expr(cty, env, 1, me)})')
-				env.append((user, cty))
-				declared_here.add(user)
-				self.count('stmt:closure')
+				gen_closure()
+		if depth == 0 and allow_closure and r.random() < 0.6:
+			(gen_lambda if self.applier is not None and r.random() < 0.5 else gen_closure)()
 		if ret is not None and ret != 'None':
 			out.append(f'{pad}return {self.expr(ret, env, 0, me)}')
 		if not out:
@@ -641,6 +690,13 @@ class NestGen:
 	def gen_function(self, owner: ClassSig | None = None, kind: str = 'function') -> tuple[FuncSig, list[str]]:
 		r = self.rng
 		name = self.names.member(owner.member_names) if owner else self.names.gvar()
+		if owner is not None and kind == 'method' and r.random() < 0.2:
+			cand = f"{name.lstrip('_')}{r.choice(['_', ''])}{owner.name}"   # a method whose name ends with the name of its class
+			if cand not in self.names.used and cand not in owner.member_names:
+				self.names.used.add(cand)
+				owner.member_names.add(cand)
+				name = cand
+				self.count('method-name-ends-with-class-name')
 		scope_names: set[str] = {name}
 		ptypes = TYPES + ['list[int]', 'dict[str, int]'] + [c.qual for c in self.classes] + [e for e, _ in self.enums]
 		params = [(self.names.var(scope_names), r.choice(ptypes)) for _ in range(r.randint(0, 3))] if kind != 'property' else []
@@ -683,6 +739,11 @@ class NestGen:
 		lines = [f"{pad}class {cls.name}{f'({base.qual})' if base else ''}:"]
 		for _ in range(r.randint(0, 2)):
 			cv = self.names.member(cls.member_names)
+			twins = [n for n, t in self.module_vars if t != 'int' and n not in cls.member_names]
+			if twins and r.random() < 0.5:
+				cv = r.choice(twins)   # same bare name as a module-level variable of a different type
+				cls.member_names.add(cv)
+				self.count('classvar-named-like-module-var')
 			cls.classvars.append((cv, 'int'))
 			lines.append(f'{pad}\t{cv}: ClassVar[int] = {r.randint(0, 9)}')
 		ftypes = TYPES + [c.qual for c in self.classes if c is not nested_in][:1]
@@ -742,7 +803,7 @@ class NestGen:
 
 	def program(self) -> str:
 		r = self.rng
-		lines = ['from typing import ClassVar', 'from enum import Enum', '']
+		lines = ['from typing import ClassVar', 'from enum import Enum', 'from collections.abc import Callable', '']
 		if r.random() < 0.4:
 			en = self.names.cls()
 			members = [self.names.cls() for _ in range(r.randint(2, 3))]
@@ -759,7 +820,14 @@ class NestGen:
 			lines.append(f"def {name}({', '.join(f'{n}: {t}' for n, t in params)}) -> None: ...")
 			lines.append('')
 			self.count('decl:procedure')
-		for _ in range(r.randint(0, 2)):
+		if r.random() < 0.6:
+			self.applier = self.names.gvar()
+			fn, v = self.names.var(set()), self.names.var(set())
+			lines.append(f'def {self.applier}({fn}: Callable[[int], int], {v}: int) -> int:')
+			lines.append(f'\treturn {fn}({v})')
+			lines.append('')
+			self.count('decl:applier')
+		for _ in range(r.randint(0, 3)):
 			ty = r.choice(TYPES)
 			n = self.names.gvar()
 			lines.append(f'{n}: {ty} = {self.lit(ty)}')
